@@ -66,6 +66,22 @@ class GateRig:
             self.events.append(("home", href, True))
             return r
         app._storage.create_collection = rec_create
+        # the principal look-ups of the gate: the first (r lock) is silent, the second (w lock, re-check) is an event;
+        # `race_user` simulates another request creating the principal collection between the two
+        orig_discover = app._storage.discover
+        self.discover_calls = {}
+        self.race_user = None
+
+        def rec_discover(path, depth="0", *a, **kw):
+            n = self.discover_calls[path] = self.discover_calls.get(path, 0) + 1
+            if n == 2 and self.in_request:
+                if self.race_user is not None and path == "/%s/" % self.race_user:
+                    os.makedirs(os.path.join(self.root(), self.race_user), exist_ok=True)
+                found = next(iter(orig_discover(path, depth, *a, **kw)), None) is not None
+                self.events.append(("recheck", path, found))
+            return orig_discover(path, depth, *a, **kw)
+        app._storage.discover = rec_discover
+        self.in_request = False
         for m in METHODS:
             setattr(app, "do_" + m, self._handler(m))
 
@@ -107,7 +123,12 @@ class GateRig:
         def start_response(status_, headers_):
             out["status"] = int(status_.split()[0])
             out["headers"] = dict(headers_)
-        list(self.app(env, start_response))
+        self.discover_calls.clear()
+        self.in_request = True
+        try:
+            list(self.app(env, start_response))
+        finally:
+            self.in_request = False
         return out["status"], out["headers"]
 
 
@@ -300,9 +321,11 @@ def gen_case(rng, rig):
                 users.append(c)       # what the built-in back-ends return
     rights_w = [u for u in users if rng.random() < 0.7]
     precreate = [u for u in users if rng.random() < 0.35]
+    cands = [u for u in rights_w if u not in precreate] or users       # where the gate would get as far as creating
+    race = rng.choice(cands) if cands and rng.random() < 0.4 else None
     handler = rng.choice(["na", "na", "na", "na_copy", "ok", "ok", "ok", "ok", "multi", "multi", "forbidden", "raise"])
     return dict(env=env, shape=shape, decode=decode, upper=upper, lower=lower, script=script, backend=backend, users=users,
-                rights_w=rights_w, precreate=precreate, handler=handler)
+                rights_w=rights_w, precreate=precreate, handler=handler, race=race)
 
 
 def run_case(rig, case):
@@ -314,14 +337,24 @@ def run_case(rig, case):
         if u and "/" not in u and not u.startswith(".") and not u.endswith("~") and len(u) < 100:
             os.makedirs(os.path.join(rig.root(), u), exist_ok=True)
     case["exists"] = [u for u in case["users"] if u and rig.home_exists(u)]
+    race = case.get("race")
+    if not (race and pathutils.is_safe_filesystem_path_component(race) and len(race) < 100):
+        race = None
+    rig.race_user = race
+    # what the look-up repeated under the w lock answers: as before, plus the principal a concurrent request creates meanwhile
+    case["exists_w"] = case["exists"] + ([race] if race and race not in case["exists"] else [])
     before = impl.tree_dump(rig.srv.folder)
     del rig.events[:]
     status, headers = rig.call(case["env"])
+    rig.race_user = None
     after = impl.tree_dump(rig.srv.folder)
     events = list(rig.events)
+    raced = bool(race) and race not in case["exists"] and ("recheck", "/%s/" % race, True) in events
+    if raced:       # the directory the simulated concurrent request made is not this request's doing
+        after = [e for e in after if not (e[0] == "collection-root/" + race and e not in before)]
     return dict(status=status, www="WWW-Authenticate" in headers, www_value=headers.get("WWW-Authenticate"),
                 location=None if headers.get("Location") is None else urllib.parse.unquote(headers["Location"]),   # modulo percent-encoding (C18)
-                events=events, store_changed=before != after,
+                events=events, raced=raced, store_changed=before != after,
                 new_entries=[e[0] for e in after if e not in before])
 
 
@@ -355,15 +388,18 @@ def enc_triples_opt(l):
 def enc_gcase(item):
     cfg, case = item
     return ("{| g_cfg := %s; g_env := %s; g_upper := %s; g_lower := %s; g_decode := %s; g_backend := %s; g_handler := %s; "
-            "g_exists := %s; g_rights := %s |}" % (
+            "g_exists := %s; g_exists_w := %s; g_rights := %s |}" % (
                 enc_cfg(cfg), enc_env(case["env"]), enc_pairs(case["upper"]), enc_pairs(case["lower"]),
                 enc_triples_opt(case["decode"]), enc_triples_opt(case["backend"]), HRESP[case["handler"]],
-                enc_list(enc_str)(case["exists"]), enc_list(enc_str)(case["rights_w"])))
+                enc_list(enc_str)(case["exists"]), enc_list(enc_str)(case["exists_w"]), enc_list(enc_str)(case["rights_w"])))
 
 
 def enc_event(ev):
     if ev[0] == "backend":
         return "EBackend %s %s" % (enc_str(ev[1]), enc_str(ev[2]))
+    if ev[0] == "recheck":
+        href = ev[1]
+        return "EHomeRecheck %s %s" % (enc_str(href[1:-1] if href.startswith("/") and href.endswith("/") else "?" + href), enc_bool(ev[2]))
     if ev[0] == "home":
         href = ev[1]
         user = href[1:-1] if href.startswith("/") and href.endswith("/") else "?" + href
